@@ -27,3 +27,19 @@ Theorem C13_any_schedule_same_result : forall (A : Type) (f : A -> A) (l : list 
   Permutation sched (seq 0 (length l)) -> fold_left (upd f) sched l = map f l.
 Proof. exact (@any_schedule_same_result). Qed.
 Print Assumptions C13_any_schedule_same_result.
+
+(* the same with a different closure per replica (each replica steps with its own temperature and its
+   own RNG): every execution order of the workers gives the index-wise result *)
+Theorem C13_any_schedule_same_result_indexed : forall (A : Type) (g : nat -> A -> A) (l : list A) (sched : list nat),
+  Permutation sched (seq 0 (length l)) -> fold_left (updi g) sched l = mapi_from 0 g l.
+Proof. exact (@any_schedule_same_result_indexed). Qed.
+Print Assumptions C13_any_schedule_same_result_indexed.
+
+(* a whole run: any number of parallel phases, closures differing from phase to phase, each under its
+   own arbitrary schedule, ends in the vector the serial in-order execution produces *)
+Theorem C13_any_schedules_same_run : forall (A : Type) (phases : list ((nat -> A -> A) * list nat)) (l : list A),
+  Forall (fun ph => Permutation (snd ph) (seq 0 (length l))) phases ->
+  fold_left (fun v ph => fold_left (updi (fst ph)) (snd ph) v) phases l
+  = fold_left (fun v ph => mapi_from 0 (fst ph) v) phases l.
+Proof. exact (@any_schedules_same_run). Qed.
+Print Assumptions C13_any_schedules_same_run.
